@@ -449,7 +449,7 @@ func init() {
 	eng.Register(&eng.Check{
 		ID:    "C20",
 		Title: "Template cache: one compile per name, coherent under concurrency",
-		Rule: "explicit-state exploration against a map model: (sequential) every operation history up to the depth bound over the cache alphabet on two sets is replayed on real sets and each return value - error, identity class of the returned *Template, its rendered content (file version at load time, the set's own global), loader fetch count - must equal the model's; (concurrent) for every pair (thorough: also triples) of thread programs ALL schedules up to the preemption bound are executed under the controlled scheduler and each must be linearisable w.r.t. the model (returned object identities and total loads per name explained by some interleaving), free of happens-before-unordered conflicting accesses, and deadlock-free. states = schedules executed (+ the model's abstract states), transitions = operations/scheduling decisions.",
+		Rule:  "explicit-state exploration against a map model: (sequential) every operation history up to the depth bound over the cache alphabet on two sets is replayed on real sets and each return value - error, identity class of the returned *Template, its rendered content (file version at load time, the set's own global), loader fetch count - must equal the model's; (concurrent) for every pair (thorough: also triples) of thread programs ALL schedules up to the preemption bound are executed under the controlled scheduler and each must be linearisable w.r.t. the model (returned object identities and total loads per name explained by some interleaving), free of happens-before-unordered conflicting accesses, and deadlock-free. states = schedules executed (+ the model's abstract states), transitions = operations/scheduling decisions.",
 		Assumptions: []string{
 			"harness loaders follow DESIGN.md Appendix A.8, so './a' and 'a' name the same cache entry",
 			"entries cached before Debug was switched on are still served when it is switched off again",
